@@ -32,6 +32,12 @@ type pomOpt struct {
 	Plugin     bool // build/pluginManagement/plugins/plugin/dependencies
 	Parent     int  // 0 none, 1 local parent, 2 local parent + grandparent
 	ParentProp bool // a child (and parent) dependency uses a property defined one level up
+	// RelPath: how <parent> names its local parent: 0 no <relativePath> (default ../pom.xml), 1 explicit
+	// ../pom.xml, 2 the directory (..)
+	RelPath int
+	// NoVer: org.nv:nv is declared in <dependencies> WITHOUT <version> and managed in
+	// <dependencyManagement> with 1 a literal version / 2 a property of its own
+	NoVer int
 	// Dup: org.dup:dup is declared twice: in <dependencies> with a literal version (the entry updates address)
 	// and, with the property expression of org.pr:pr, in 1 dependencyManagement / 2 the profile / 3 the plugin
 	Dup int
@@ -59,6 +65,9 @@ func (o pomOpt) valid() bool {
 		return false
 	}
 	if o.NestedAttr && !o.Plugin {
+		return false
+	}
+	if o.RelPath > 0 && o.Parent == 0 {
 		return false
 	}
 	if o.Dup > 0 && (o.PropKind == 0 || o.PropInMgmt || (o.Dup == 2 && o.Profile == 0) || (o.Dup == 3 && !o.Plugin)) {
@@ -109,7 +118,7 @@ func (w *xw) dep(d gdep, comments bool) {
 	w.leaf("artifactId", d.a)
 	if d.verRaw != "" {
 		w.line("<version>" + d.verRaw + "</version>")
-	} else {
+	} else if d.ver != "" {
 		w.leaf("version", d.ver)
 	}
 	if d.typ != "" {
@@ -148,6 +157,15 @@ func (w *xw) props(ps [][2]string, comments, cdata bool) {
 		w.line("<note><![CDATA[1.0 <&> ${p}]]></note>")
 	}
 	w.close("properties")
+}
+
+func relPath(w *xw, kind int) {
+	switch kind {
+	case 1:
+		w.leaf("relativePath", "../pom.xml")
+	case 2:
+		w.leaf("relativePath", "..")
+	}
 }
 
 const (
@@ -189,6 +207,7 @@ func (o pomOpt) render() (map[string]string, []string) {
 		w.leaf("groupId", "org.par")
 		w.leaf("artifactId", "par")
 		w.leaf("version", "1")
+		relPath(w, o.RelPath)
 		w.close("parent")
 	}
 	w.leaf("groupId", "org.child")
@@ -202,6 +221,9 @@ func (o pomOpt) render() (map[string]string, []string) {
 	props = append(props, pprops...)
 	if o.Plugin {
 		props = append(props, [2]string{"plv", "1.0"})
+	}
+	if o.NoVer == 2 {
+		props = append(props, [2]string{"nvp", "1.0"})
 	}
 	if o.Profile == 3 {
 		// a project-level property with the name of a property that only the profile's
@@ -246,6 +268,14 @@ func (o pomOpt) render() (map[string]string, []string) {
 	}
 	if o.Dup == 1 {
 		ml = append(ml, gdep{g: "org.dup", a: "dup", ver: tmpl})
+	}
+	if o.NoVer > 0 {
+		dl = append(dl, gdep{g: "org.nv", a: "nv"})
+		if o.NoVer == 1 {
+			ml = append(ml, gdep{g: "org.nv", a: "nv", ver: "1.0"})
+		} else {
+			ml = append(ml, gdep{g: "org.nv", a: "nv", ver: "${nvp}"})
+		}
 	}
 	if len(dl) > 0 {
 		w.deps(dl, o.Comments)
@@ -330,6 +360,7 @@ func (o pomOpt) render() (map[string]string, []string) {
 			w.leaf("groupId", "org.gpar")
 			w.leaf("artifactId", "gpar")
 			w.leaf("version", "1")
+			relPath(w, o.RelPath)
 			w.close("parent")
 		}
 		w.leaf("groupId", "org.par")
@@ -440,6 +471,25 @@ func genPomDocs(thorough bool) []*pomDoc {
 			}
 		}
 	}
+	// Family M: a dependency without <version> whose version comes from dependencyManagement
+	for nv := 1; nv <= 2; nv++ {
+		for _, d := range bools {
+			for _, pk := range []int{0, 1} {
+				for pf := 0; pf <= 1; pf++ {
+					add("managed-version", pomOpt{Deps: d, PropKind: pk, Profile: pf, NoVer: nv}, subA, rotA)
+				}
+			}
+		}
+	}
+	// Family R: the ways a <parent> can name its local parent
+	for par := 1; par <= 2; par++ {
+		for rp := 1; rp <= 2; rp++ {
+			add("relative-path", pomOpt{Parent: par, Deps: true, RelPath: rp}, 2, 1)
+			if thorough {
+				add("relative-path", pomOpt{Parent: par, Deps: true, PropKind: 1, Profile: 1, ParentProp: true, RelPath: rp}, 2, 1)
+			}
+		}
+	}
 	// Family B: local parent / grandparent x reduced child (quick) or full child (thorough)
 	pks := []int{0, 1, 2}
 	pfs := []int{0, 1}
@@ -497,7 +547,7 @@ func genPomDocs(thorough bool) []*pomDoc {
 
 func (o pomOpt) weight() int {
 	w := o.Parent * 10
-	for _, b := range []bool{o.Deps, o.Mgmt, o.PropKind > 0, o.PropInMgmt, o.Shared, o.Profile > 0, o.Profile > 1, o.Plugin, o.ParentProp, o.Dup > 0, o.Comments, o.CDATA, o.PI, o.NS, o.NestedAttr, o.VerDecor} {
+	for _, b := range []bool{o.Deps, o.Mgmt, o.PropKind > 0, o.PropInMgmt, o.Shared, o.Profile > 0, o.Profile > 1, o.Plugin, o.ParentProp, o.Dup > 0, o.RelPath > 0, o.NoVer > 0, o.Comments, o.CDATA, o.PI, o.NS, o.NestedAttr, o.VerDecor} {
 		if b {
 			w++
 		}
@@ -544,6 +594,14 @@ func explorePomDoc(r *ev.Run, d *pomDoc) {
 		cs := base
 		cs.Updates = []updSpec{addUpd(to)}
 		run(&cs)
+	}
+	{
+		cs := base
+		cs.Updates = []updSpec{{Name: "org.new:added", ArtifactType: "test-jar", Classifier: "tests", To: "2.0", Add: true}}
+		run(&cs)
+		cs2 := base
+		cs2.Updates = []updSpec{{Name: "org.new:added", Classifier: "sources", To: "2.0", Add: true}}
+		run(&cs2)
 	}
 	for idx := 0; idx < n; idx++ {
 		cs := base
@@ -595,6 +653,7 @@ type pdep struct {
 	VerNode    *xnode
 	Ver        string // raw template
 	Dependency *xnode
+	ManagedBy  *pdep  // for a dependency without <version>: the dependencyManagement entry that supplies it
 	UID        string // id() for the first declaration of an id (the one updates address), id()#file:origin for later ones
 	Secondary  bool
 }
@@ -671,6 +730,17 @@ func modelFromTrees(trees [][]*xnode, chain []string) (*pomModel, error) {
 		}
 		m.roots = append(m.roots, root)
 		m.extract(fi, root)
+	}
+	for _, d := range m.deps {
+		if d.VerNode != nil || d.Origin != "" {
+			continue
+		}
+		for _, md := range m.deps { // child first, then its parents
+			if md.Origin == "management" && md.VerNode != nil && md.id() == d.id() {
+				d.ManagedBy = md
+				break
+			}
+		}
 	}
 	// extraction order = order in which the writer looks requirements up (dependencies, dependencyManagement,
 	// profiles, plugins, then the parents): the first declaration of an id is the addressable one
@@ -829,6 +899,9 @@ func (m *pomModel) lookup(d *pdep, name string) *pprop {
 }
 
 func (m *pomModel) effective(d *pdep) string {
+	if d.VerNode == nil && d.ManagedBy != nil {
+		return m.effective(d.ManagedBy)
+	}
 	return propRef.ReplaceAllStringFunc(d.Ver, func(s string) string {
 		if p := m.lookup(d, s[2:len(s)-1]); p != nil {
 			return p.Val
@@ -935,6 +1008,10 @@ func preparePom(cs *caseSpec, dir string) (in *pomInput, discs []disc) {
 			bad("harness:pom-model-disagrees-with-read", "Read reports %s (origin %q) which the model does not know", q.ID, q.Origin)
 			return
 		}
+		if q.Direct && strings.Contains(q.Version, "${") && !strings.Contains(in.mIn.effective(d), "${") {
+			bad("pom:read-not-interpolated", "Read reports the project-level requirement %s as %q; its properties resolve to %q", q.ID, q.Version, in.mIn.effective(d))
+			return
+		}
 		if !strings.Contains(q.Version, "${") && q.Version != in.mIn.effective(d) {
 			bad("harness:pom-model-disagrees-with-read", "%s: Read says %q, model says %q", q.Name, q.Version, in.mIn.effective(d))
 			return
@@ -969,6 +1046,12 @@ func runPomWith(in *pomInput, cs *caseSpec, outDir string) (o outcome) {
 			added[u.id()] = u.To
 			o.changed = true
 			t := dep.NewType()
+			if u.ArtifactType != "" && u.ArtifactType != "jar" {
+				t.AddAttr(dep.MavenArtifactType, u.ArtifactType)
+			}
+			if u.Classifier != "" {
+				t.AddAttr(dep.MavenClassifier, u.Classifier)
+			}
 			t.AddAttr(dep.MavenDependencyOrigin, "management")
 			pus = append(pus, result.PackageUpdate{Name: u.Name, VersionFrom: "", VersionTo: u.To, Type: t, Transitive: true})
 			continue
@@ -979,6 +1062,11 @@ func runPomWith(in *pomInput, cs *caseSpec, outDir string) (o outcome) {
 			return
 		}
 		target[u.id()] = u.To
+		if d.ManagedBy != nil {
+			// a version-less dependency and the dependencyManagement entry that supplies its version are one
+			// declaration: both requirements are expected to move
+			target[d.ManagedBy.UID] = u.To
+		}
 		if mIn.effective(d) != u.To {
 			o.changed = true
 		}
